@@ -1,9 +1,9 @@
 (* Property C19 — dense matrix storage keeps rows aligned and contents intact
    across operations.  This file contains only the property theorems (closed by
    [exact] of lemmas from DenseProofs), statement pins and assumption audits. *)
-From Coq Require Import List Arith Bool Lia Permutation.
+From Coq Require Import List Arith Bool Lia Permutation ZArith.
 From LMBase Require Import Res ListX.
-From LMDense Require Import DenseModel DenseProofs.
+From LMDense Require Import DenseModel DenseProofs DenseReg DenseRegProofs DenseCheck DenseCheckProofs.
 Import ListNotations.
 
 (* Stride: at least the column count, a whole number of alignment units, minimal. *)
@@ -112,6 +112,188 @@ Proof.
   - intros pat. exact (take_mixed_perm pat t).
 Qed.
 
+(* ---------- several matrices with different histories (register file) ---------- *)
+
+(* The struct as it is (data vector, SEPARATE rows field, capacity) refines the
+   rows x columns tables for every operation sequence over a register file of
+   matrices: single-matrix operations on any register, from_rows with an iterator
+   whose len() is wrong, reserve, clone_from / clone between registers, swap, move.
+   The struct invariant rows == data.len() <= capacity is preserved, rows() of every
+   register is the row count of its table, and a panic happens exactly where the
+   tables panic (same site). *)
+Theorem C19_regfile_refines_table :
+  forall (T : Type) (dflt : T) (C S : nat), C <= S ->
+  forall (pads : nat -> nat -> T) (ops : list (rop T)) (k : nat) (regs : list (@smat T)),
+    Forall (m_wf C S) regs ->
+    match rs_run_pads dflt C S pads k regs ops, rt_run dflt C (map mabs regs) ops with
+    | Ok rs', Ok ts' =>
+        map mabs rs' = ts' /\ Forall (m_wf C S) rs' /\ map (@m_rows T) rs' = map (@length _) ts'
+    | Panic a, Panic b => a = b
+    | _, _ => False
+    end.
+Proof. intros T dflt C S H pads ops k regs Hwf. exact (rs_run_refines dflt C S H pads ops k regs Hwf). Qed.
+
+(* In every reachable (well-formed) state the observers that read DIFFERENT fields
+   agree: rows() (the rows field) is the number of rows Index/iter() see (the data
+   vector), ravel() (rows*stride cells) is the whole buffer, and the derived ==
+   (data and rows field) between two matrices with any capacities / paddings /
+   histories is equality of the logical cells. *)
+Theorem C19_struct_observers_agree :
+  forall (T : Type) (C S : nat) (eqT : T -> T -> bool), C <= S ->
+  forall a b : @smat T, m_wf C S a -> m_wf C S b ->
+    m_rows a = length (mabs a) /\
+    m_ravel S a = ravel (sd a) /\ length (m_ravel S a) = m_rows a * S /\
+    m_eqb eqT a b = table_eqb eqT (mabs a) (mabs b).
+Proof.
+  intros T C S eqT H a b Ha Hb. split; [|split; [|split]].
+  - exact (m_rows_abs C S a Ha).
+  - exact (m_ravel_whole C S H a Ha).
+  - rewrite (m_ravel_whole C S H a Ha). destruct Ha as [H1 [H2 _]].
+    rewrite (ravel_length C S H (sd a) H1). unfold m_rows. rewrite H2. reflexivity.
+  - exact (m_eqb_abs C S H eqT a b Ha Hb).
+Qed.
+
+(* from_rows does not trust ExactSizeIterator::len(): the result holds exactly the rows
+   the iterator yielded (never an unwritten row) when it yields at most len() rows, all
+   of C cells; it panics when a row has another length or when more rows than len()
+   arrive; with an honest len() it is from_rows of the single-matrix model.  The
+   struct-level execution (uninitialized buffer, indexed writes, resize(written))
+   refines it and re-establishes the invariant. *)
+Theorem C19_from_rows_untrusted_len :
+  forall (T : Type) (dflt : T) (C S : nat), C <= S ->
+  forall (pad : nat -> T) (claimed : nat) (rows : list (list T)),
+    match m_from_rows_len dflt C S pad claimed rows, t_from_rows_len C claimed rows with
+    | Ok m', Ok t' => mabs m' = t' /\ m_wf C S m'
+    | Panic a, Panic b => a = b
+    | _, _ => False
+    end /\
+    (forall t', t_from_rows_len C claimed rows = Ok t' ->
+       t' = rows /\ length rows <= claimed /\ Forall (fun r => length r = C) rows) /\
+    (claimed < length rows -> exists site, t_from_rows_len C claimed rows = Panic site) /\
+    t_from_rows_len C (length rows) rows = t_from_rows C rows.
+Proof.
+  intros T dflt C S H pad claimed rows. split; [|split; [|split]].
+  - exact (m_from_rows_len_spec dflt C S H pad claimed rows).
+  - intros t'. unfold t_from_rows_len.
+    destruct (from_rows_scan C claimed 0 rows) as [u| | |] eqn:E; simpl; intros K; try discriminate.
+    injection K as K'. subst t'.
+    apply (from_rows_scan_ok C S H) in E. destruct E as [H1 H2]. simpl in H1. auto.
+  - intros Hlt.
+    assert (X : exists site, from_rows_scan C claimed 0 rows = Panic site)
+      by (apply (from_rows_scan_more C S H); [lia | exact Hlt]).
+    destruct X as [site E].
+    exists site. unfold t_from_rows_len. rewrite E. reflexivity.
+  - apply (t_from_rows_len_honest C S H).
+Qed.
+
+(* Double-ended iteration continued past exhaustion: the first rows() calls of any
+   next()/next_back() pattern hand out every row exactly once, every later call
+   returns None (the iterator is fused). *)
+Theorem C19_iteration_fused :
+  forall (T : Type) (pat : list bool) (t : @table T), length t <= length pat ->
+    take_mixed_o pat t =
+      map Some (take_mixed (firstn (length t) pat) t) ++ repeat None (length pat - length t) /\
+    Permutation (take_mixed (firstn (length t) pat) t) t.
+Proof.
+  intros T pat t H. split.
+  - exact (take_mixed_o_spec pat t).
+  - apply take_mixed_perm. rewrite firstn_length. lia.
+Qed.
+
+(* The extracted checker used by the driver for PROPFAIL decides exactly the
+   specification relation trace_ok (DenseCheck.v): it is sound and complete. *)
+Theorem C19_check_sound :
+  forall (T : Type) (dflt : T) (C S : nat) (eqT : T -> T -> bool),
+    (forall x y, eqT x y = true <-> x = y) ->
+  forall pat regs ops ob fin,
+    check_C19 dflt C S eqT pat regs ops ob fin = true -> trace_ok dflt C S pat regs ops ob fin.
+Proof. intros T dflt C S eqT He pat regs ops ob fin. apply (check_C19_iff dflt C S eqT He pat ops). Qed.
+
+Theorem C19_check_complete :
+  forall (T : Type) (dflt : T) (C S : nat) (eqT : T -> T -> bool),
+    (forall x y, eqT x y = true <-> x = y) ->
+  forall pat regs ops ob fin,
+    trace_ok dflt C S pat regs ops ob fin -> check_C19 dflt C S eqT pat regs ops ob fin = true.
+Proof. intros T dflt C S eqT He pat regs ops ob fin. apply (check_C19_iff dflt C S eqT He pat ops). Qed.
+
+(* The instance that is extracted and run by the driver (cells as Z, compared by Z.eqb). *)
+Theorem C19_check_extracted_instance :
+  forall (C S : nat) pat regs ops ob fin,
+    check_C19 0%Z C S Z.eqb pat regs ops ob fin = true <-> trace_ok 0%Z C S pat regs ops ob fin.
+Proof. intros C S pat regs ops ob fin. apply (check_C19_iff 0%Z C S Z.eqb Z.eqb_eq pat ops). Qed.
+
+(* The specification is met by the struct-level model: in every well-formed state the
+   observations the model's own observers make (each reading the field the code
+   reads) are accepted by the property. *)
+Theorem C19_struct_model_meets_spec :
+  forall (T : Type) (C S : nat) (eqT : T -> T -> bool),
+    (forall x y, eqT x y = true <-> x = y) -> C <= S ->
+  forall regs : list (@smat T), Forall (m_wf C S) regs ->
+    robs_ok S (map mabs regs) (m_observe S eqT regs).
+Proof. intros T C S eqT He H regs Hwf. exact (m_observe_ok C S eqT He H regs Hwf). Qed.
+
+(* Every state the struct-level model reaches, from well-formed registers and by any
+   operation sequence (hence after every prefix of it), corresponds to the tables the
+   same sequence produces and is observed as the property demands. *)
+Theorem C19_every_reachable_state_meets_spec :
+  forall (T : Type) (dflt : T) (C S : nat) (eqT : T -> T -> bool),
+    (forall x y, eqT x y = true <-> x = y) -> C <= S ->
+  forall (pads : nat -> nat -> T) (ops : list (rop T)) (k : nat) (regs rs' : list (@smat T)),
+    Forall (m_wf C S) regs ->
+    rs_run_pads dflt C S pads k regs ops = Ok rs' ->
+    rt_run dflt C (map mabs regs) ops = Ok (map mabs rs') /\
+    robs_ok S (map mabs rs') (m_observe S eqT rs').
+Proof.
+  intros T dflt C S eqT He H pads ops k regs rs' Hwf E.
+  pose proof (rs_run_refines dflt C S H pads ops k regs Hwf) as R. rewrite E in R.
+  destruct (rt_run dflt C (map mabs regs) ops) as [ts'| | |]; try contradiction.
+  destruct R as [R1 [R2 _]]. subst ts'. split; [reflexivity|].
+  exact (m_observe_ok C S eqT He H rs' R2).
+Qed.
+
+(* Non-vacuity of the register-file theorems: three fresh matrices are well formed; a
+   clone_from into a shrunk matrix of larger capacity reports the source's rows; the
+   checker accepts the right observation of that sequence and rejects the one with a
+   stale row count. *)
+Definition ex_ops : list (rop nat) :=
+  [RLocal 0 (ONew 8); RLocal 0 (OResize 2); RLocal 1 (OFromRows [[1]; [2]; [3]; [4]; [5]]); RCloneFrom 0 1].
+
+Example C19_nonvacuous_regfile :
+  Forall (m_wf 1 32) (repeat (m_resize 0 1 32 (fun i => i) (m_empty 0) 0) 3) /\
+  match rs_run_pads 0 1 32 (fun k i => k + i) 0 (repeat (m_resize 0 1 32 (fun i => i) (m_empty 0) 0) 3) ex_ops with
+  | Ok rs => map (@m_rows nat) rs = [5; 5; 0] /\
+             m_eqb Nat.eqb (nth 0 rs (m_empty 0)) (nth 1 rs (m_empty 0)) = true /\
+             scap (nth 0 rs (m_empty 0)) = 5
+  | _ => False
+  end.
+Proof.
+  split.
+  - repeat constructor.
+  - vm_compute. repeat split.
+Qed.
+
+Definition ex_obs (rows0 : nat) : list (obs nat) :=
+  let mk r cells := {| ob_rows := r; ob_stride := 32; ob_aligned := true; ob_ravel := true; ob_cells := cells |} in
+  let z8 := repeat [0] 8 in let z2 := repeat [0] 2 in let f5 := [[1]; [2]; [3]; [4]; [5]] in
+  let eqs (a b c : bool) := [true; a; b; a; true; c; b; c; true] in
+  let ob m0 m1 a b c := ObsOk {| ob_regs := [m0; m1; mk 0 []]; ob_eq := eqs a b c; ob_ne := map negb (eqs a b c) |} in
+  [ob (mk 8 z8) (mk 0 []) false false true;
+   ob (mk 2 z2) (mk 0 []) false false true;
+   ob (mk 2 z2) (mk 5 f5) false false false;
+   ob (mk rows0 f5) (mk 5 f5) true false false].
+
+Definition ex_fin : list (fobs nat) :=
+  let mk t := {| f_iter := t; f_rev := rev t; f_into := t; f_into_mut := t;
+                 f_mixed := take_mixed_o [true; false] t; f_mixed_mut := take_mixed_o [true; false] t;
+                 f_mixed_into := take_mixed_o [true; false] t; f_lens := mixed_lens [true; false] (length t);
+                 f_eqclone := true; f_eqpad := true; f_eqmod := match t with [] => true | _ => false end |} in
+  [mk [[1]; [2]; [3]; [4]; [5]]; mk [[1]; [2]; [3]; [4]; [5]]; mk []].
+
+Example C19_check_nonvacuous :
+  check_C19 0 1 32 Nat.eqb [true; false] [[]; []; []] ex_ops (ex_obs 5) (Some ex_fin) = true /\
+  check_C19 0 1 32 Nat.eqb [true; false] [[]; []; []] ex_ops (ex_obs 2) (Some ex_fin) = false.
+Proof. vm_compute. split; reflexivity. Qed.
+
 (* Non-vacuity: the hypotheses are met by the matrices the code builds, and the
    layout of the element types / column counts named by the property. *)
 Example C19_nonvacuous_wf :
@@ -137,3 +319,23 @@ Check C19_storage_refines_table :
     | Panic a, Panic b => a = b
     | _, _ => False
     end.
+Check C19_regfile_refines_table :
+  forall (T : Type) (dflt : T) (C S : nat), C <= S ->
+  forall (pads : nat -> nat -> T) (ops : list (rop T)) (k : nat) (regs : list (@smat T)),
+    Forall (m_wf C S) regs ->
+    match rs_run_pads dflt C S pads k regs ops, rt_run dflt C (map mabs regs) ops with
+    | Ok rs', Ok ts' =>
+        map mabs rs' = ts' /\ Forall (m_wf C S) rs' /\ map (@m_rows T) rs' = map (@length _) ts'
+    | Panic a, Panic b => a = b
+    | _, _ => False
+    end.
+Check C19_check_sound :
+  forall (T : Type) (dflt : T) (C S : nat) (eqT : T -> T -> bool),
+    (forall x y, eqT x y = true <-> x = y) ->
+  forall pat regs ops ob fin,
+    check_C19 dflt C S eqT pat regs ops ob fin = true -> trace_ok dflt C S pat regs ops ob fin.
+Check C19_check_complete :
+  forall (T : Type) (dflt : T) (C S : nat) (eqT : T -> T -> bool),
+    (forall x y, eqT x y = true <-> x = y) ->
+  forall pat regs ops ob fin,
+    trace_ok dflt C S pat regs ops ob fin -> check_C19 dflt C S eqT pat regs ops ob fin = true.
